@@ -80,6 +80,8 @@ def structures(tier):
             sts.append({'kind': 'process', 'nmap': nmap, 'upd': s})
     for nmap in (0, 1, 2):
         sts.append({'kind': 'process-callstack', 'nmap': nmap})
+    for second in ('no-map', 'other-thread'):
+        sts.append({'kind': 'process-two-dumps', 'second': second})
     for nmap, empty in ((1, 0), (2, 0), (2, 1)):
         sts.append({'kind': 'process-kevents', 'nmap': nmap, 'empty': empty})
         sts.append({'kind': 'process', 'nmap': nmap, 'upd': [], 'empty': empty})
@@ -163,6 +165,8 @@ def _single(p, ctx, cols, on, fmt):
 def run(ctx, st):
     if st['kind'] == 'process-callstack':
         return run_process_callstack(ctx, st)
+    if st['kind'] == 'process-two-dumps':
+        return run_process_two_dumps(ctx, st)
     return {'kevent': run_kevent, 'trace': run_trace, 'callstack': run_callstack, 'colour': run_colour,
             'colour-log': run_colour_log, 'process': run_process, 'process-kevents': run_process_kevents}[st['kind']](ctx, st)
 
@@ -414,6 +418,43 @@ def _prefix(lp, ep):
         else:
             norm.append(x)
     return norm
+
+
+def run_process_two_dumps(ctx, st):
+    """two requests on one parser object: the second dump declares nothing about the thread (no thread map, or a map
+    about another thread) - its lines report the thread as unknown whatever the first dump declared"""
+    by_id, by_name = sweep.codes()
+    pid1 = _pid(ctx, 'p1')
+
+    def dump(threads, ts):
+        recs = [K.pack_rec(ts, [0, 0, 0, 0], TID, by_name['BSC_getpid'] | 1),
+                K.pack_rec(ts + 1, [0, ctx.int('ret%d' % ts), 0, 0], TID, by_name['BSC_getpid'] | 2)]
+        return K.v2_file(threads, 0, recs)
+    first = dump([(TID, pid1, b'procA')], 10 ** 12 + 5)
+    second = dump([] if st['second'] == 'no-map' else [(22222, _pid(ctx, 'p2'), b'other')], 10 ** 12 + 50)
+    p = _parser(ctx)
+    p.show_timestamp = False
+    p.show_tid = False
+    try:
+        l1 = list(p.formatted_traces(make_stream(first)))
+        l2 = list(p.formatted_traces(make_stream(second)))
+    except Exception as e:      # noqa
+        __import__('vxlib.symx.core', fromlist=['x']).proxy_rejected(e)
+        ctx.check('C14/two-dumps/no-error', False, '%s: %s' % (type(e).__name__, e)); ctx.reach(); return
+    d1 = Declared([(TID, pid1, 'procA')])
+    ex1 = _expected_process(ctx, d1, TID, 34)
+    ex2 = _expected_process(ctx, Declared([]), TID, 34)
+    ctx.check('C14/two-dumps/line-counts', len(l1) == 1 and len(l2) == 1)
+    for tag, lines, ex in (('first', l1, ex1), ('second', l2, ex2)):
+        for ln in lines:
+            _require_widths(ctx, ex)
+            if ctx.symbolic:
+                lp, ep = ctx.template(ln), ctx.template(ex)
+                ok = sweep.pieces_equal(_prefix(lp, ep), ep)
+            else:
+                ok = ln.startswith(ex)
+            ctx.check('C14/two-dumps/%s-dump-names-what-it-declares' % tag, ok, ln if not ctx.symbolic else tag)
+    ctx.reach()
 
 
 def run_process_callstack(ctx, st):
